@@ -53,6 +53,27 @@ def integerXLine (line : String) : String :=
         | none => "PRE"
         | some c => verdict (sgn o == c) (hexInt c) line
       | _, _, _ => "BAD args | " ++ line
+    | "ctd", [bits], [out] | "asd", [bits], [out] | "zinit", [bits], [out] =>
+      match parseHexNat bits, parseHexInt out with
+      | some b, some o =>
+        match ofFl (decode64 b) with
+        | none => "PRE"
+        | some z => verdict (z == o) (hexInt z) line
+      | _, _ => "BAD args | " ++ line
+    | "tod", [a], [out] =>
+      match parseHexInt a, parseHexNat out with
+      | some a, some b =>
+        if a.natAbs.log2 ≥ 1023 then "PRE" else      -- beyond DBL_MAX: GMP documents the result as system dependent
+        let (neg, mant, sh) := toDyTrunc a
+        let want : Int := if neg then -(Int.ofNat mant) else Int.ofNat mant
+        match decode64 b with
+        | .fin m e =>
+          -- m·2^e = want·2^sh  (both exponents made non-negative)
+          let lhs := if 0 ≤ e then m * 2 ^ e.toNat else m
+          let rhs := if 0 ≤ e then want * 2 ^ sh else want * 2 ^ (sh + (-e).toNat)
+          verdict (lhs == rhs) s!"{hexInt want}*2^{sh}" line
+        | _ => s!"DIFF kind=BOTH model=finite | {line.trimAscii.toString}"
+      | _, _ => "BAD args | " ++ line
     | "fact", [n], [out] =>
       match parseHexNat n, parseHexNat out with
       | some n, some o => verdict (fact n == o) (hexNat (fact n)) line
